@@ -54,7 +54,9 @@ type TVOp struct {
 	// strings derived from Op / Key; Op and Key are then what the address codec / the interface
 	// registry - called directly, not through the keeper - make of them: 0 = undecodable)
 	OpStr, KeyStr string
-	BadExec       bool // set by Do: some executor string does not decode (address codec, called directly)
+	Sender        string // probe: the account that tries to act as bridge executor
+	ProbeWant     bool   // set by Do: Sender's address BYTES are among the decoded BridgeExecutors (codec called directly)
+	BadExec       bool   // set by Do: some executor string does not decode (address codec, called directly)
 }
 
 func (o TVOp) Coq() string {
@@ -80,6 +82,8 @@ func (o TVOp) Coq() string {
 		return "TEngine " + coqKPs(o.Batch)
 	case "dryblock":
 		return fmt.Sprintf("TDryBlock %s", coqI(o.H))
+	case "probe":
+		return "TProbeExec " + coqStr(o.Sender)
 	}
 	panic("unknown tvop " + o.Kind)
 }
@@ -110,6 +114,8 @@ func (o TVOp) String() string {
 		return fmt.Sprintf("engine%v", o.Batch)
 	case "dryblock":
 		return fmt.Sprintf("begin+end(%d) on a DISCARDED cache branch", o.H)
+	case "probe":
+		return fmt.Sprintf("FinalizeTokenDeposit by %s (discarded)", o.Sender)
 	}
 	return o.Kind
 }
@@ -466,6 +472,40 @@ func (r *ValRun) Do(o TVOp) ValSnap {
 		if res.OK {
 			r.feed(&s, batch)
 		}
+	case "probe":
+		// is Sender accepted as bridge executor?  A well-formed next-in-order deposit through the
+		// real msg server on a branch that is thrown away.
+		ps, err := e.K.GetParams(r.Ctx)
+		if err != nil {
+			panic(err)
+		}
+		if sb, err := e.AK.AddressCodec().StringToBytes(o.Sender); err == nil {
+			for _, x := range ps.BridgeExecutors {
+				if xb, err := e.AK.AddressCodec().StringToBytes(x); err == nil && bytes.Equal(xb, sb) {
+					o.ProbeWant = true
+				}
+			}
+		}
+		res = func() (res ExecResult) {
+			branch, _ := r.Ctx.CacheContext()
+			branch = branch.WithEventManager(sdk.NewEventManager())
+			defer func() {
+				if x := recover(); x != nil {
+					res = ExecResult{OK: false, Err: fmt.Sprintf("panic: %v", x)}
+				}
+			}()
+			seq, err := e.K.GetNextL1Sequence(branch)
+			if err != nil {
+				panic(err)
+			}
+			_, err = e.Msg.FinalizeTokenDeposit(branch, &opchildtypes.MsgFinalizeTokenDeposit{
+				Sender: o.Sender, From: "l1sender", To: e.User(6).Str, Amount: sdk.NewInt64Coin("l2/probe", 3),
+				Sequence: seq, Height: 1, BaseDenom: "uinit"})
+			if err != nil {
+				return ExecResult{OK: false, Err: err.Error()}
+			}
+			return ExecResult{OK: true}
+		}()
 	case "dryblock":
 		// the whole (empty) block on a branch of the store that is thrown away afterwards: what
 		// baseapp does with a proposal it ends up rejecting, or a simulation
@@ -558,7 +598,11 @@ func (r *ValRun) Coq() string {
 		seen[u.Str] = true
 	}
 	for _, o := range r.Ops {
-		for _, x := range o.Execs {
+		spellings := o.Execs
+		if o.Kind == "probe" {
+			spellings = []string{o.Sender}
+		}
+		for _, x := range spellings {
 			if seen[x] {
 				continue
 			}
